@@ -216,9 +216,39 @@ FsBaseMsr == << 256, 49152, 0, 0 >>
 GsBaseMsr == << 257, 49152, 0, 0 >>
 
 -----------------------------------------------------------------------------
+(* C17: the closure runs inside the window.  A memory cell is stored (a) before the call, loaded
+   and stored (b) by the closure, loaded and stored (c) after the call; the interrupt handler
+   samples and overwrites the cell at every cli (mark 3089) and sti (mark 1393).  The program
+   is executed step by step over the cell; the observations must be the ones this sequential
+   execution produces - a load hoisted over the cli or a store sunk below the sti shows. *)
+WinProg(api, if0) ==
+    LET open == api = "disable;enable" \/ if0 = 1
+    IN << "st_a" >> \o (IF open THEN << "cli" >> ELSE << >>) \o << "ld_seen", "st_b" >>
+                   \o (IF open THEN << "sti" >> ELSE << >>) \o << "ld_after", "st_c" >>
+RECURSIVE WinExec(_, _, _, _, _)
+WinExec(prog, k, cell, obs, e) ==
+    IF k > Len(prog) THEN [obs EXCEPT !.fin = cell]
+    ELSE LET s == prog[k] IN
+         CASE s = "st_a" -> WinExec(prog, k + 1, e.p[1], obs, e)
+           [] s = "st_b" -> WinExec(prog, k + 1, e.p[2], obs, e)
+           [] s = "st_c" -> WinExec(prog, k + 1, e.p[3], obs, e)
+           [] s = "cli" -> WinExec(prog, k + 1, 3089, [obs EXCEPT !.hcli = cell], e)
+           [] s = "sti" -> WinExec(prog, k + 1, 1393, [obs EXCEPT !.hsti = cell], e)
+           [] s = "ld_seen" -> WinExec(prog, k + 1, cell, [obs EXCEPT !.seen = cell], e)
+           [] s = "ld_after" -> WinExec(prog, k + 1, cell, [obs EXCEPT !.after = cell], e)
+WindowOK(e) ==
+    LET prog == WinProg(e.api, e.if0)
+        o == WinExec(prog, 1, 0, [seen |-> 0, after |-> 0, hcli |-> 0, hsti |-> 0, fin |-> 0], e)
+        opened == e.api = "disable;enable" \/ e.if0 = 1
+    IN /\ e.r = << o.seen, o.after, o.fin >>
+       /\ e.h = << o.hcli, o.hsti >>
+       /\ e.if1 = (IF e.api = "disable;enable" THEN 1 ELSE e.if0)
+       /\ [k \in 1 .. Len(e.instrs) |-> e.instrs[k].m] = (IF opened THEN << "cli", "sti" >> ELSE << >>)
+
 Check(e) ==
     CASE e.op = "port_block" -> PortBlockOK(e)
       [] e.op = "reg" -> RegOK(e)
+      [] e.op = "window" -> WindowOK(e)
       [] e.op = "pcid_new" -> e.ok = (IF e.x < 4096 THEN 1 ELSE 0)
       [] e.op = "reg_seq" ->
             LET m == e.mask  a == e.p[1]  b == e.p[2]
